@@ -232,7 +232,45 @@ Proof.
 Qed.
 
 Definition chunk_of (st : wstate) (ss se step : Z) : chunk :=
-  per_map (fun t _ => load_table st ss se step t) (per_all tt).
+  (per_map (fun t _ => load_table st ss se step t) (per_all tt), load_ana st ss se step).
+
+(* the analysis dataset's index entries address rows inside the dataset (any order, any subset) *)
+Definition ana_ok (st : wstate) : Prop :=
+  forall e, In e (a_ent (ana st)) ->
+  0 <= fst (snd e) /\ 0 <= snd (snd e) /\ fst (snd e) + snd (snd e) <= zlen (a_rows (ana st)).
+
+Lemma acell_ok : forall st i, ana_ok st ->
+  0 <= fst (acell st i) /\ 0 <= snd (acell st i) /\ fst (acell st i) + snd (acell st i) <= zlen (a_rows (ana st)).
+Proof.
+  intros st i H. unfold acell. destruct (find (fun e => fst e =? i) (a_ent (ana st))) eqn:E.
+  - apply find_some in E. destruct E as [Hin _]. apply H. exact Hin.
+  - simpl. pose proof (zlen_nonneg (a_rows (ana st))). lia.
+Qed.
+
+Lemma py_slice_nil : forall {A} a b, py_slice (@nil A) a b = [].
+Proof. intros. unfold py_slice. rewrite skipn_nil. apply firstn_nil. Qed.
+
+Definition ana_slice (st : wstate) (i : Z) : list row :=
+  py_slice (a_rows (ana st)) (fst (acell st i)) (fst (acell st i) + snd (acell st i)).
+
+(* the loader applied to the analysis column: by load_formula, for arbitrary in-bounds entries *)
+Lemma load_ana_spec : forall st ss se step, a_col (ana st) = true -> ana_ok st ->
+  0 <= ss -> ss < se -> se <= n_events st -> 1 <= step ->
+  load_ana st ss se step = Some (map (fun j => ana_slice st (ss + j * step)) (zseq (nsel ss se step))).
+Proof.
+  intros st ss se step Hc Hok H0 H1 H2 Hs. unfold load_ana. rewrite Hc. unfold n_events in H2.
+  assert (Hlen : zlen (acolumn st) = zlen (idx st)).
+  { unfold acolumn. rewrite zlen_map, zseq_length. pose proof (zlen_nonneg (idx st)). lia. }
+  rewrite sel_eq by lia. f_equal.
+  assert (Hti : map (fun j => nthZ (acolumn st) (ss + j * step) (0, 0)) (zseq (nsel ss se step)) =
+                map (fun j => acell st (ss + j * step)) (zseq (nsel ss se step))).
+  { apply map_ext_in. intros j Hj. apply in_zseq in Hj.
+    pose proof (nsel_bound ss se step j Hs Hj). unfold acolumn. apply nthZ_map_zseq. nia. }
+  rewrite Hti.
+  rewrite load_formula.
+  - rewrite map_map. reflexivity.
+  - intros c Hin. apply in_map_iff in Hin. destruct Hin as [j [Hcj _]]. subst c. apply acell_ok. exact Hok.
+Qed.
 
 Lemma load_data_ok : forall st ss se step, inv st -> 0 <= ss -> ss < se -> se <= n_events st -> 1 <= step ->
   load_data st ss se step = inr (chunk_of st ss se step).
@@ -249,11 +287,31 @@ Proof.
   apply (inv_col _ I). unfold rows. destruct (get (rowsOf st) t); [discriminate | discriminate].
 Qed.
 
-Lemma ev_obs_spec : forall st ss se step c, inv st -> 0 <= ss -> ss < se -> se <= n_events st -> 1 <= step ->
+(* what the specification reader sees of event i: the six writer tables and the analysis dataset *)
+Definition read_all_obs (st : wstate) (i : Z) : per tobs * tobs := (read_obs st i, read_ana st i).
+
+Lemma ev_ana_spec : forall st ss se step c, ana_ok st -> 0 <= ss -> ss < se -> se <= n_events st -> 1 <= step ->
   0 <= c -> ss + c * step < se ->
-  ev_obs st (chunk_of st ss se step) c = read_obs st (ss + c * step).
+  ev_ana st (chunk_of st ss se step) c = read_ana st (ss + c * step).
 Proof.
-  intros st ss se step c I H0 H1 H2 Hs Hc Hlt. unfold ev_obs, read_obs, chunk_of.
+  intros st ss se step c Hok H0 H1 H2 Hs Hc Hlt. unfold ev_ana, read_ana, chunk_of.
+  destruct (a_ex (ana st)); cbn [negb]; auto.
+  destruct (a_col (ana st)) eqn:Hcol; cbn [negb]; auto.
+  destruct (a_rows (ana st)) eqn:Hr.
+  - simpl. rewrite py_slice_nil. reflexivity.
+  - cbn [is_nil snd]. rewrite <- Hr. rewrite load_ana_spec by auto.
+    pose proof (nsel_complete ss se step c Hs Hc Hlt) as Hm.
+    rewrite zlen_map, zseq_length.
+    destruct (0 <=? c) eqn:E1; [| lia]. destruct (c <? Z.max 0 (nsel ss se step)) eqn:E2; [| lia]. cbn [andb].
+    rewrite nthZ_map_zseq by lia. reflexivity.
+Qed.
+
+Lemma ev_obs_spec : forall st ss se step c, inv st -> ana_ok st -> 0 <= ss -> ss < se -> se <= n_events st -> 1 <= step ->
+  0 <= c -> ss + c * step < se ->
+  ev_obs st (chunk_of st ss se step) c = read_all_obs st (ss + c * step).
+Proof.
+  intros st ss se step c I Hok H0 H1 H2 Hs Hc Hlt. unfold ev_obs, read_all_obs. f_equal; [| apply ev_ana_spec; auto].
+  unfold read_obs, chunk_of.
   apply per_ext. intro t. rewrite !get_per_map. unfold ev_table.
   destruct (avail st t) eqn:Ha; simpl; auto.
   rewrite get_per_map. rewrite load_table_spec by (auto; apply inv_avail_col; auto).
@@ -272,14 +330,14 @@ Fixpoint srange (fuel : nat) (ev stop step : Z) : list Z :=
 
 Definition good (st : wstate) (step c ss se : Z) (data : chunk) : Prop :=
   0 <= ss /\ se <= n_events st /\ -1 <= c /\
-  forall c', 0 <= c' -> ss + c' * step < se -> ev_obs st data c' = read_obs st (ss + c' * step).
+  forall c', 0 <= c' -> ss + c' * step < se -> ev_obs st data c' = read_all_obs st (ss + c' * step).
 
-Lemma iter_loop_spec : forall st k stop step, inv st -> 1 <= k -> 1 <= step -> stop <= n_events st ->
+Lemma iter_loop_spec : forall st k stop step, inv st -> ana_ok st -> 1 <= k -> 1 <= step -> stop <= n_events st ->
   forall fuel c ss se data, good st step c ss se data ->
   iter_loop st k stop step fuel c ss se data =
-  inr (map (fun ev => (ev, read_obs st ev)) (srange fuel ((c + 1) * step + ss) stop step)).
+  inr (map (fun ev => (ev, read_all_obs st ev)) (srange fuel ((c + 1) * step + ss) stop step)).
 Proof.
-  intros st k stop step I Hk Hs Hstop. induction fuel as [|f IH]; intros c ss se data G; simpl; auto.
+  intros st k stop step I Hok Hk Hs Hstop. induction fuel as [|f IH]; intros c ss se data G; simpl; auto.
   destruct G as [G0 [G1 [G2 G3]]].
   set (ev := (c + 1) * step + ss).
   assert (Hev : 0 <= ev) by (unfold ev; nia).
@@ -290,7 +348,7 @@ Proof.
     rewrite (load_data_ok st ev _ step I) by lia.
     rewrite (IH 0 ev (Z.min (ev + k) (n_events st)) (chunk_of st ev (Z.min (ev + k) (n_events st)) step)).
     + replace ((0 + 1) * step + ev) with (ev + step) by lia.
-      rewrite (ev_obs_spec st ev _ step 0 I) by lia. replace (ev + 0 * step) with ev by lia. reflexivity.
+      rewrite (ev_obs_spec st ev _ step 0 I Hok) by lia. replace (ev + 0 * step) with ev by lia. reflexivity.
     + split; [lia|]. split; [lia|]. split; [lia|]. intros c' Hc' Hlt'. apply ev_obs_spec; auto; lia.
   - apply Z.leb_gt in E2.
     rewrite (IH (c + 1) ss se data).
@@ -318,14 +376,14 @@ Proof.
   repeat split; try reflexivity; lia.
 Qed.
 
-Lemma iterate_fuel_spec : forall st k a b s fuel s0 e0 p0, inv st -> 1 <= k ->
+Lemma iterate_fuel_spec : forall st k a b s fuel s0 e0 p0, inv st -> ana_ok st -> 1 <= k ->
   iter_init st a b s = inr (s0, e0, p0) ->
-  iterate_fuel st k a b s fuel = inr (map (fun ev => (ev, read_obs st ev)) (srange fuel s0 e0 p0)).
+  iterate_fuel st k a b s fuel = inr (map (fun ev => (ev, read_all_obs st ev)) (srange fuel s0 e0 p0)).
 Proof.
-  intros st k a b s fuel s0 e0 p0 I Hk Hi. unfold iterate_fuel. rewrite Hi.
+  intros st k a b s fuel s0 e0 p0 I Hok Hk Hi. unfold iterate_fuel. rewrite Hi.
   destruct (iter_init_ok _ _ _ _ _ _ _ Hi) as [A [B [C _]]].
   assert (Hst : e0 <= n_events st) by lia.
-  rewrite (iter_loop_spec st k e0 p0 I Hk C Hst fuel (-1) s0 s0 empty_chunk).
+  rewrite (iter_loop_spec st k e0 p0 I Hok Hk C Hst fuel (-1) s0 s0 empty_chunk).
   - replace ((-1 + 1) * p0 + s0) with s0 by lia. reflexivity.
   - split; [lia|]. split; [lia|]. split; [lia|]. intros c' Hc' Hlt. nia.
 Qed.
